@@ -2,6 +2,8 @@ package larking
 
 import (
 	"context"
+	"errors"
+	"io"
 	"net"
 
 	"github.com/gobwas/ws"
@@ -89,6 +91,13 @@ func (s *streamWS) RecvMsg(m interface{}) error {
 
 		b, _, err := wsutil.ReadClientData(s.conn)
 		if err != nil {
+			var closed wsutil.ClosedError
+			if errors.As(err, &closed) {
+				switch closed.Code {
+				case ws.StatusNormalClosure, ws.StatusGoingAway, ws.StatusNoStatusRcvd:
+					return io.EOF // the client ended the stream
+				}
+			}
 			return err
 		}
 
